@@ -359,6 +359,40 @@ func main() {
 				c.NonTrivial()
 			}
 		})
+	// nothing remains: multi-polygons / collections whose members all miss the box while their union bound meets it
+	unit := func(k int) orb.Ring {
+		x, y := float64(k%4), float64(k/4)
+		return orb.Ring{{x, y}, {x + 1, y}, {x + 1, y + 1}, {x, y + 1}, {x, y}}
+	}
+	r.Explore("nothing-remains", "12 boxes x every pair of unit squares of the 4x4 cell grid as a 2-member MultiPolygon and as a Collection (also nested and mixed with a point): the generic clip returns nil exactly when nothing remains, and mvt Layer.Clip drops the feature", mc.Opts{MaxDev: -1, Split: 2}, func(c *mc.Ctx) {
+		box := boxes[c.Choose(12)]
+		a, b := unit(c.Choose(16)), unit(c.Choose(16))
+		ra, rb := clip.Ring(box, a.Clone()), clip.Ring(box, b.Clone())
+		remains := ra != nil || rb != nil
+		for name, g := range map[string]orb.Geometry{
+			"MultiPolygon":      orb.MultiPolygon{{a.Clone()}, {b.Clone()}},
+			"Collection":        orb.Collection{orb.Polygon{a.Clone()}, b.Clone()},
+			"nested Collection": orb.Collection{orb.Collection{orb.Polygon{a.Clone()}}, orb.MultiPolygon{{b.Clone()}}},
+		} {
+			got := clip.Geometry(box, g)
+			if (got != nil) != remains {
+				c.Failf("generic-nil", "clip.Geometry(%v, %s of %v and %v) = %#v, something remains = %v", box, name, a, b, got, remains)
+			}
+			layer := &mvt.Layer{Features: []*geojson.Feature{geojson.NewFeature(orb.Clone(g))}}
+			layer.Clip(box)
+			if (len(layer.Features) == 1) != remains {
+				c.Failf("mvt-layer-clip", "Layer.Clip(%v) of a %s kept %d features, something remains = %v", box, name, len(layer.Features), remains)
+			}
+		}
+		pt := orb.Point{a[0][0] + 0.5, a[0][1] + 0.5}
+		if got := clip.Geometry(box, orb.Collection{orb.MultiPoint{pt}, orb.LineString{b[0], b[1]}}); (got != nil) != (box.Contains(pt) || clip.LineString(box, orb.LineString{b[0], b[1]}) != nil) {
+			c.Failf("generic-nil", "clip.Geometry(%v, Collection{MultiPoint{%v}, LineString{%v,%v}}) = %#v", box, pt, b[0], b[1], got)
+		}
+		if !remains && box.Intersects(orb.MultiPolygon{{a}, {b}}.Bound()) {
+			c.NonTrivial()
+		}
+	})
+
 	// clip.Bound: box intersection
 	r.Explore("bound", "all pairs of boxes over {0,1,2,3}^2 corners: clip.Bound is the intersection", mc.Opts{MaxDev: -1}, func(c *mc.Ctx) {
 		mk := func() orb.Bound {
